@@ -9,6 +9,7 @@ package main
 
 import (
 	"flag"
+	"time"
 
 	"verif/vk"
 
@@ -30,8 +31,12 @@ func main() {
 	}
 	if *part == "all" || *part == "local" {
 		restore := r.Limit(r.Remaining() * 55 / 100)
-		for _, c := range localConfigs(r) {
+		cfgs := localConfigs(r)
+		for i, c := range cfgs {
+			// equal share of what is left for every remaining search
+			restoreOne := r.Limit(r.Remaining() / time.Duration(len(cfgs)-i))
 			res := runLocal(r, c)
+			restoreOne()
 			states += res.States
 			trans += res.Transitions
 			validated += res.Transitions
